@@ -761,6 +761,27 @@ def a_neq_search_helper(rows, k, f):
 def b_neq_search_helper(rows, k, f):
     return f(_vp_find_ne(rows, k))
 
+def a_neq_property_guard(p, q, r):
+    seg = _VPSeg(offset=int(p), frames=q, rate=r)
+    return seg.end
+def b_neq_property_guard(p, q, r):
+    return int(p) / r + q / r
+
+def a_bound_method(p, q, r, f):
+    seg = _VPSeg(offset=p, frames=q, rate=r)
+    return f(seg.scaled)
+def b_bound_method(p, q, r, f):
+    def scaled(k):
+        return p * k
+    return f(scaled)
+
+def a_neq_bound_method(p, q, r, f):
+    seg = _VPSeg(offset=p, frames=q, rate=r)
+    return f(seg.scaled)
+def b_neq_bound_method(p, q, r, f):
+    seg = _VPSeg(offset=q, frames=p, rate=r)
+    return f(seg.scaled)
+
 def a_neq_order(p, q):
     return [p, q]
 def b_neq_order(p, q):
@@ -774,8 +795,8 @@ EQUAL = ["helper", "raise_in_helper", "ite", "single_exit", "loop_append", "dict
          "multi_fill", "local_gen", "zip_display", "search_preset", "cond_record", "local_call", "explicit_defaults", "guarded_loop", "isinstance_tuple", "for_else", "range_spelled", "fancy_zip", "helper_kw",
          "gen_return", "counted_while", "join_fstr", "minmax_ite", "gen_display", "int_fold", "dict_call", "clamp_helper",
          "table_items", "star_list", "list_concat", "itemgetter2", "axis_helper", "table_member", "registry",
-         "vararg_helper", "bool_flag", "record_property", "comp_after_subst", "search_helper"]
-DIFFERENT = ["neq_filter", "neq_later_mutation", "neq_order", "neq_search_default", "neq_option", "neq_gen_stop", "neq_vararg", "neq_search_helper"]
+         "vararg_helper", "bool_flag", "record_property", "comp_after_subst", "search_helper", "bound_method"]
+DIFFERENT = ["neq_filter", "neq_later_mutation", "neq_order", "neq_search_default", "neq_option", "neq_gen_stop", "neq_vararg", "neq_search_helper", "neq_property_guard", "neq_bound_method"]
 
 
 def _alpha(t, mp):
@@ -806,6 +827,15 @@ def signature(summ):
     for e in summ.returns + summ.raises + summ.yields + [e for e in summ.events if e.kind == "break"]:
         mp = {}
         out.append((e.kind, repr(_alpha(e.live, mp)), repr(_alpha(e.term, mp))))
+    # the local functions / lambdas the value mentions, by their own signatures (parameters renamed by position)
+    from sa.sym import walk, subst
+    used = {x[1] for e in summ.returns + summ.raises + summ.yields for x in walk(e.term) if x[0] == "lambda" and x[1] in summ.lambdas}
+    for lid in sorted(used):
+        ls = summ.lambdas[lid]
+        ren = {("param", p): ("param", f"_{i}") for i, p in enumerate(ls.params)}
+        for e in ls.returns + ls.raises + ls.yields:
+            mp = {}
+            out.append(("local " + e.kind, repr(_alpha(subst(e.live, ren), mp)), repr(_alpha(subst(e.term, ren), mp))))
     return sorted(out)
 
 
